@@ -8,8 +8,8 @@
    by the check as KNOWN-FINDING and is not claimed here. *)
 From Coq Require Import ZArith List Bool.
 From JL.std Require Import GoBase GoVal GoJson.
-From JL.model Require Import Row RowRun Template TemplateJson.
-From JL.proofs Require Import RowProofs TemplateOrder TemplateClass TemplatePipeline.
+From JL.model Require Import Row RowRun Template TemplateJson Jl.
+From JL.proofs Require Import RowProofs TemplateOrder TemplateClass TemplatePipeline JlProofs JlOrder.
 Import ListNotations.
 Open Scope Z_scope.
 
@@ -73,3 +73,175 @@ Print Assumptions C03_object_member_order.
 Example C03_example :
   push_all [[97]; [98]] (push_all [[97]; [98]] [[122]; [98]; [120]; [122]; [97]]) = [[97]; [98]; [122]; [120]].
 Proof. reflexivity. Qed.
+
+(* ---------- the command: the templates jl builds have the key lists of the definition ----------
+   (bridge between C19 and the theorems above; definitions in JL.proofs.JlOrder)
+   [cspec]: what a definition declares, whichever way it is given: SPlain name in-descriptor
+   out-descriptor | SRow name sub-declarations. [yaml_spec cols]: read off the decoded row.yml (a
+   column that has columns is SRow: its own descriptors are dropped, WithRow overwrites With).
+   [inline_spec O n m l]: read off the row MkRow m l that json.Unmarshal built from the -t text: a
+   string member "in:out" is SPlain k in out, a string without ':' is SPlain k d d (one descriptor
+   stands for both sides), an object member is SRow, any other member (number, null, array, ...)
+   declares nothing ([inline_declares O m k] = true for the first two kinds).
+   [declared O out specs t]: t is what With / WithRow build for specs on side out (false = input
+   template, true = output template):
+     Inv t, row_l t = push_all [] (map spec_name specs),
+     a name whose last declaration is SPlain n i o holds  CVal nil (parse_descriptor (if out then o else i)),
+     a name whose last declaration is SRow n sub holds  CRow r  where r = CreateRowEmpty() of a
+     template st with  declared O out sub st  (how WithRow stores it), at the position of the name.
+   [wf_cols] (JlProofs): unique names at each level (and no ':' in an input descriptor). *)
+
+(* 1 + 2. both templates list the names in definition order, sub-row columns at their own position;
+   row.yml (parse) and -t (createTemplateFromRow) *)
+Theorem C03_jl_declares_in_order : forall (O : oracles),
+  (forall n cols ti to,
+     wf_cols cols -> of_yaml O n cols new_template new_template = Ok (ti, to) ->
+     row_l ti = map col_name cols /\ row_l to = map col_name cols
+     /\ declared O false (yaml_spec cols) ti /\ declared O true (yaml_spec cols) to)
+  /\ (forall n m l ti to,
+     Inv (MkRow m l) -> of_inline O n m l new_template new_template = Ok (ti, to) ->
+     row_l ti = filter (inline_declares O m) l /\ row_l to = filter (inline_declares O m) l
+     /\ map spec_name (inline_spec O n m l) = filter (inline_declares O m) l
+     /\ declared O false (inline_spec O n m l) ti /\ declared O true (inline_spec O n m l) to).
+Proof. exact (fun O => conj (yaml_declares_in_order O) (inline_declares_in_order O)). Qed.
+Print Assumptions C03_jl_declares_in_order.
+
+(* ... and recursively: what each column holds in the prototype row. A sub-row column holds the empty
+   row of the template built for its own columns, whose key list is the names of these columns in
+   their order; the statement applies again to (sub, st). *)
+Theorem C03_jl_declared_reading : forall (O : oracles) (out : bool) cols t,
+  wf_cols cols -> declared O out (yaml_spec cols) t ->
+  Inv t /\ row_l t = map col_name cols
+  /\ forall name i o sub, In (Col name i o sub) cols ->
+       match sub with
+       | [] => get_value name t = Some (plain_cell (if out then o else i))
+       | _ :: _ =>
+           exists st r, wf_cols sub /\ declared O out (yaml_spec sub) st /\ create_row_empty O FUELJ st = Ok r
+                        /\ get_value name t = Some (CRow r) /\ Inv r /\ row_l r = map col_name sub
+       end.
+Proof. exact declared_yaml_reading. Qed.
+Print Assumptions C03_jl_declared_reading.
+
+(* the same reading for any declaration list with unique names (the inline form) *)
+Theorem C03_jl_declared_reading_specs : forall (O : oracles) (out : bool) specs t,
+  declared O out specs t -> NoDup (map spec_name specs) ->
+  Inv t /\ row_l t = map spec_name specs
+  /\ forall s, In s specs ->
+       match s with
+       | SPlain n i o => get_value n t = Some (plain_cell (if out then o else i))
+       | SRow n sub =>
+           exists st r, declared O out sub st /\ create_row_empty O FUELJ st = Ok r
+                        /\ get_value n t = Some (CRow r) /\ Inv r /\ row_l r = push_all [] (map spec_name sub)
+       end.
+Proof. exact declared_reading. Qed.
+Print Assumptions C03_jl_declared_reading_specs.
+
+(* the -t text: the row the members are read from lists the member names in order of first
+   appearance, and satisfies the premise of the inline half of C03_jl_declares_in_order *)
+Theorem C03_jl_inline_text : forall (O : oracles) text ti to,
+  of_inline_text O text = Ok (ti, to) ->
+  let m := row_m (inline_row O text) in
+  let l := row_l (inline_row O text) in
+  Inv (inline_row O text)
+  /\ l = push_all [] (map fst (fst (parse_top_rv text)))
+  /\ of_inline O FUELJ m l new_template new_template = Ok (ti, to).
+Proof. exact inline_text_declared. Qed.
+Print Assumptions C03_jl_inline_text.
+
+(* 3. which columns are hidden on output: exactly the plain columns whose OUTPUT descriptor parses to
+   the hidden format, whatever the input descriptor. A column that has columns is never hidden,
+   whatever its output descriptor says (model and binary agree: see C03_jl_example). *)
+Theorem C03_jl_hidden_iff : forall (O : oracles),
+  (forall n cols ti to name i o sub,
+     wf_cols cols -> of_yaml O n cols new_template new_template = Ok (ti, to) ->
+     In (Col name i o sub) cols ->
+     (fmt_of to name = FHidden <-> sub = [] /\ fst (parse_descriptor o) = FHidden))
+  /\ (forall n m l ti to k,
+     Inv (MkRow m l) -> of_inline O n m l new_template new_template = Ok (ti, to) ->
+     (fmt_of to k = FHidden <->
+      exists c desc, In k l /\ alookup k m = Some c /\ inline_kind O c = Ok (IPlain desc)
+                     /\ fst (parse_descriptor (desc_out desc)) = FHidden)).
+Proof. exact (fun O => conj (yaml_hidden_iff O) (inline_hidden_iff O)). Qed.
+Print Assumptions C03_jl_hidden_iff.
+
+(* 4. the command: with [jl_specs O file inline] the declarations in force (row.yml's, replaced
+   entirely by the inline template when one is given), every emitted line lists first the visible
+   columns of the definition in definition order, each once, then the undeclared keys of the input
+   line in order of first appearance (instance of C03_toplevel_order / pipeline_members) *)
+Theorem C03_jl_run_order : forall (O : oracles) jfloat jother file inline lines out,
+  wf_cols file -> jl_run O jfloat jother file inline lines = Ok out ->
+  exists ti to,
+    let specs := jl_specs O file inline in
+    create_template O file inline = Ok (ti, to)
+    /\ NoDup (map spec_name specs)
+    /\ row_l ti = map spec_name specs /\ row_l to = map spec_name specs
+    /\ out = concat (map (fun line => match jl_pipeline O jfloat jother FUELJ ti to line with Ok o => o | _ => [] end) lines)
+    /\ forall line o, jl_pipeline O jfloat jother FUELJ ti to line = Ok o ->
+         exists vs,
+           let emitted := visible_names specs ++ first_new (map spec_name specs) (map fst (fst (parse_top line))) in
+           o = [123] ++ join_with [44] (map (fun kv => encode_string (fst kv) ++ [58] ++ snd kv) (combine emitted vs)) ++ [125] ++ [10]
+           /\ length vs = length emitted.
+Proof. exact jl_run_order. Qed.
+Print Assumptions C03_jl_run_order.
+
+(* ... and a declared plain column the line does not mention is written as null. (Not so a declared
+   sub-row: it is written as the object of its columns, "sub":{"y":null,"z":null}: known finding F6.)
+   Proved by following the cell of the absent column through the same decomposition of one line
+   as pipeline_members (JlOrder.pipeline_absent_null). *)
+Theorem C03_jl_absent_null : forall (O : oracles) jfloat jother file inline ti to line o,
+  wf_cols file -> create_template O file inline = Ok (ti, to) ->
+  jl_pipeline O jfloat jother FUELJ ti to line = Ok o ->
+  exists vs,
+    let specs := jl_specs O file inline in
+    let emitted := visible_names specs ++ first_new (map spec_name specs) (map fst (fst (parse_top line))) in
+    o = [123] ++ join_with [44] (map (fun kv => encode_string (fst kv) ++ [58] ++ snd kv) (combine emitted vs)) ++ [125] ++ [10]
+    /\ Forall2 (fun k v => (exists i d, In (SPlain k i d) specs) ->
+                           ~ In k (map fst (fst (parse_top line))) -> v = s_null) emitted vs.
+Proof. exact jl_absent_null. Qed.
+Print Assumptions C03_jl_absent_null.
+
+(* a hidden column in the middle, a sub-row listed before a plain column, a descriptor without ':';
+   row.yml (the sub-row column even says output: hidden) and the same definition as -t text
+     {"a":"string","h":"numeric:hidden","sub":{"z":"string","y":"string"},"b":"numeric"}
+   on the line  {"x":1,"b":2,"h":3,"sub":{"y":"Y","z":"Z"},"w":4,"a":"A","x":5}  and on  {} :
+     {"a":"A","sub":{"y":"Y","z":"Z"},"b":2,"x":5,"w":4}
+     {"a":null,"sub":{"y":null,"z":null},"b":null}
+   (the real jl binary prints the same two lines for both forms) *)
+Example C03_jl_example :
+  let O : oracles := {| o_ffmt := fun _ _ _ _ => []; o_fparse := fun _ _ => None; o_f2i := fun _ _ => 0;
+                        o_local_off := fun _ => 0; o_time_parse_slow := fun _ => None |} in
+  let jf : bool -> Z -> option str := fun _ _ => None in
+  let jo : Z -> option str := fun _ => None in
+  let s_string := [115;116;114;105;110;103] in
+  let s_numeric := [110;117;109;101;114;105;99] in
+  let s_hidden := [104;105;100;100;101;110] in
+  let cols := [Col [97] s_string s_string [];
+               Col [104] s_numeric s_hidden [];
+               Col [115;117;98] [97;117;116;111] s_hidden [Col [122] s_string s_string []; Col [121] s_string s_string []];
+               Col [98] s_numeric s_numeric []] in
+  let inline : str := [123;34;97;34;58;34;115;116;114;105;110;103;34;44;34;104;34;58;34;110;117;109;101;114;105;99;58;104;105;100;100;101;110;34;44;34;115;117;98;34;58;123;34;122;34;58;34;115;116;114;105;110;103;34;44;34;121;34;58;34;115;116;114;105;110;103;34;125;44;34;98;34;58;34;110;117;109;101;114;105;99;34;125] in
+  let line : str := [123;34;120;34;58;49;44;34;98;34;58;50;44;34;104;34;58;51;44;34;115;117;98;34;58;123;34;121;34;58;34;89;34;44;34;122;34;58;34;90;34;125;44;34;119;34;58;52;44;34;97;34;58;34;65;34;44;34;120;34;58;53;125] in
+  let specs := [SPlain [97] s_string s_string; SPlain [104] s_numeric s_hidden;
+                SRow [115;117;98] [SPlain [122] s_string s_string; SPlain [121] s_string s_string];
+                SPlain [98] s_numeric s_numeric] in
+  let names := [[97]; [104]; [115;117;98]; [98]] in
+  let written : str :=
+    [123;34;97;34;58;34;65;34;44;34;115;117;98;34;58;123;34;121;34;58;34;89;34;44;34;122;34;58;34;90;34;125;44;34;98;34;58;50;44;34;120;34;58;53;44;34;119;34;58;52;125;10]
+    ++ [123;34;97;34;58;110;117;108;108;44;34;115;117;98;34;58;123;34;121;34;58;110;117;108;108;44;34;122;34;58;110;117;108;108;125;44;34;98;34;58;110;117;108;108;125;10] in
+  wf_cols cols
+  /\ jl_specs O cols [] = specs /\ jl_specs O [] inline = specs
+  /\ match create_template O cols [] with Ok (ti, to) => (row_l ti, row_l to) | _ => ([], []) end = (names, names)
+  /\ match create_template O [] inline with Ok (ti, to) => (row_l ti, row_l to) | _ => ([], []) end = (names, names)
+  /\ visible_names specs = [[97]; [115;117;98]; [98]]
+  /\ match create_template O cols [] with
+     | Ok (_, to) => (fmt_of to [104], fmt_of to [115;117;98])
+     | _ => (FBad, FBad)
+     end = (FHidden, FAuto)          (* h is hidden; sub is not, although row.yml says output: hidden *)
+  /\ jl_run O jf jo cols [] [line; [123; 125]] = Ok written
+  /\ jl_run O jf jo [] inline [line; [123; 125]] = Ok written.
+Proof.
+  cbv zeta. split.
+  - split; [repeat constructor; cbn; intuition discriminate|].
+    repeat constructor; cbn; intuition (try discriminate); repeat constructor; cbn; intuition discriminate.
+  - vm_compute. repeat split.
+Qed.
